@@ -1,5 +1,35 @@
 import FeatModel.Model.Adjacency
-/-! # C19 — property theorems (the full statement set is being proved; see Lemmas/C19*.lean) -/
+import FeatModel.Lemmas.C19_renders
+/-! # C19 — property theorems (statements only; proofs live in Lemmas/C19_*.lean) -/
 open FeatModel.Adj
 
 theorem C19.render_asIs_spec (g : Graph) : g.render 0 = some g := rfl
+
+theorem C19.injectify_spec (g : Graph) (i : Nat) :
+    (g.injectify.row i).Nodup ∧ (∀ k, k ∈ g.injectify.row i ↔ k ∈ g.row i) ∧
+    (g.injectify.row i).Sublist (g.row i) ∧ g.injectify.nImg = g.nImg ∧ g.injectify.nDom = g.nDom :=
+  C19L.injectify_spec g i
+
+theorem C19.transpose_spec (g : Graph) (i j : Nat) (hi : i < g.nImg) :
+    (g.transpose.row i).count j = (g.row j).count i ∧ (g.transpose.row i).Pairwise (· ≤ ·) ∧
+    g.transpose.nDom = g.nImg ∧ g.transpose.nImg = g.nDom :=
+  C19L.transpose_spec g i j hi
+
+theorem C19.injectifyTranspose_spec (g : Graph) (i j : Nat) (hi : i < g.nImg) :
+    (j ∈ g.injectifyTranspose.row i ↔ i ∈ g.row j) ∧ (g.injectifyTranspose.row i).Pairwise (· < ·) ∧
+    g.injectifyTranspose.nDom = g.nImg ∧ g.injectifyTranspose.nImg = g.nDom :=
+  C19L.injectifyTranspose_spec g i j hi
+
+theorem C19.compose_spec (a b : Graph) (i : Nat) :
+    (Graph.compose a b).row i = (a.row i).flatMap b.row ∧
+    (∀ k, k ∈ (Graph.compose a b).row i ↔ ∃ j, j ∈ a.row i ∧ k ∈ b.row j) :=
+  C19L.compose_spec a b i
+
+theorem C19.sortIndices_spec (g : Graph) (i : Nat) :
+    (g.sortIndices.row i).Perm (g.row i) ∧ (g.sortIndices.row i).Pairwise (· ≤ ·) :=
+  C19L.sortIndices_spec g i
+
+theorem C19.arrays_faithful (g : Graph) (i : Nat) (hi : i < g.nDom) :
+    g.domainPtr.length = g.nDom + 1 ∧
+    g.row i = (g.imageIdx.drop (g.domainPtr.getD i 0)).take (g.domainPtr.getD (i+1) 0 - g.domainPtr.getD i 0) :=
+  C19L.arrays_faithful g i hi
